@@ -94,10 +94,10 @@ CLAIMED = {
         "text": "Coq theorems (props/C10.v) over the loops and corrections regenerated from multiplicity.py (stable sort = "
                 "Python sorted): flag = (p <= alpha_adj) for every procedure/correction in input order; adjusted p-values are "
                 "the running min/max of the corrected values in rank order (closed forms) and preserve the raw order; rejection "
-                "sets are the step-up / step-down sets; rejected <-> pvalue_adj <= alpha for BH, BY, Hochberg-Bonferroni and "
-                "Holm-Bonferroni; BH/BY range; order independence (same multiset of p-values in another order gives every "
-                "hypothesis the same adjusted p-value and decision, ties included) for those four. The Sidak variants and "
-                "purity are validated by the oracle (textbook references, shuffles, deep copies), not proved",
+                "sets are the step-up / step-down sets; rejected <-> pvalue_adj <= alpha for BH, BY, Hochberg-Bonferroni, "
+                "Holm-Bonferroni and (p-values in [0,1]) Hochberg-/Holm-Sidak; BH/BY range; order independence (same multiset of "
+                "p-values in another order gives every hypothesis the same adjusted p-value and decision, ties included) for "
+                "all six combinations. Purity is validated by the oracle (deep copies), not proved",
         "note": "trusted: Coq kernel, stdlib real axioms, translator incl. loop pattern + lib/Loop.v, exact-number wrapper in the "
                 "harness; Python sorted() stable",
         "technique": "Coq proof (list induction over the sorted family) on a translator-generated model; exact differential; textbook oracle",
@@ -210,7 +210,7 @@ CLAIMED = {
                 "fields keep their exact values; the sqrt clamp and the saturating exp are necessary (witness lemmas). Tie: "
                 "regeneration + primitive-operator differential + aggregates-level raise/kind/class differential",
         "note": "trusted: Coq kernel (no axioms), translator, hand-written semantics lib/PreludeX.v (compared with the real "
-                "operators each run), scipy frozen distributions total; float overflow of x**2 excluded; backends via oracle only",
+                "operators each run), scipy frozen distributions total; intermediate rounding/overflow not represented; backends via oracle only",
         "technique": "Coq proof (kind/taint derivation over a translator-generated model under an exception semantics); "
                      "operator-level and aggregates-level differential; degenerate-data oracle on five backends",
         "design": "DESIGN.md section 5, C18",
